@@ -503,7 +503,7 @@ def search_world(run):
 
 PROPS['C11'] = {
     'modules': ['IpcModel.Props.C11'],
-    'theorems': ['C11.C11_own', 'C11.C11_restore', 'C11.C11_close_once', 'Ledger.inv_step', 'Ledger.roots_coincide', 'C11.C11_shape'],
+    'theorems': ['C11.C11_own', 'C11.C11_restore', 'C11.C11_close_once', 'Ledger.inv_step', 'Ledger.roots_coincide', 'C11.C11_shape', 'C11.C11_set_add_never_orphans'],
     'scenarios': plus(world_scen(['default'], 300, 6000), res_scen(400, 8000),
                       lambda tier, seed: [{'build': 'memfd', 'args': ['res', '--seed', str(seed + 5), '--n', str(2000 if tier == 'thorough' else 150), '--tier', tier]}]),
     'builds': ['default', 'memfd'],
